@@ -47,3 +47,26 @@ Lemma positional_conversion_is_identity ms i :
 Proof.
   intros H Hi. rewrite H. rewrite nth_error_map, (zseq_nth _ 0 i Hi). reflexivity.
 Qed.
+
+(** the files of the linker are flat names: no path separator survives, whatever the root and the package *)
+Fixpoint no_slash (s : string) : bool :=
+  match s with EmptyString => true | String c r => negb (Ascii.eqb c "/"%char) && no_slash r end.
+
+Lemma no_slash_app a b : no_slash a = true -> no_slash b = true -> no_slash (a ++ b) = true.
+Proof. induction a as [|c a IH]; simpl; intros Ha Hb; [exact Hb|]. apply andb_true_iff in Ha. destruct Ha as [H1 H2]. rewrite H1, (IH H2 Hb). reflexivity. Qed.
+
+Lemma no_slash_replace s : no_slash (replace_slash s) = true.
+Proof.
+  induction s as [|c s IH]; simpl; [reflexivity|]. rewrite IH. destruct (Ascii.eqb c "/"%char) eqn:E; simpl; [reflexivity|rewrite E; reflexivity].
+Qed.
+
+Lemma out_file_is_flat root p : no_slash (dart_out_file root p) = true.
+Proof. unfold dart_out_file. apply no_slash_app; [apply no_slash_replace|reflexivity]. Qed.
+
+(** under a GOPATH-like root, the root package and its sub-packages get the names relative to the parent of the root *)
+Example out_file_examples :
+  dart_out_file "/home/u/go/src/example.com/org/models" "example.com/org/models" = "models.dart"
+  /\ dart_out_file "/home/u/go/src/example.com/org/models" "example.com/org/models/sub/x" = "models_sub_x.dart"
+  /\ dart_out_file "/home/u/go/src/example.com/org/models" "math/big" = "stdlib_math_big.dart"
+  /\ dart_out_file "/tmp/work/mod" "example.com/org/models" = "stdlib_example.com_org_models.dart".
+Proof. vm_compute. repeat split. Qed.
